@@ -95,6 +95,17 @@ func flows() []flow {
 				return mailKV(g, "Confirm", "cnf", Desc{K: "mailtok", Kind: "confirm", U: "u4"})
 			},
 			func(g *flowGen) []SymStep { return []SymStep{g.login("b1", "u4", pw("u4"), false)} }},
+		{"tok-confirm", func(g *flowGen) []SymStep { return []SymStep{{Kind: "startconfirm", U: "u4"}} },
+			func(g *flowGen) SymStep {
+				return mailKV(g, "Confirm", "cnf", Desc{K: "mailtok", Kind: "confirm", U: "u4"})
+			}, none},
+		{"tok-recover-end-page", func(g *flowGen) []SymStep {
+			return []SymStep{g.req("b1", "POST", "RecoverStart", []KV{{"email", Desc{K: "pid", U: "u1"}}})}
+		}, func(g *flowGen) SymStep { // the page the mailed link opens: the token travels in the query string
+			s := g.req("b1", "GET", "RecoverEnd", nil)
+			s.Req.Query = []KV{{"token", Desc{K: "mailtok", Kind: "recover", U: "u1"}}}
+			return s
+		}, none},
 		{"recover-start", none, func(g *flowGen) SymStep {
 			return g.req("b1", "POST", "RecoverStart", []KV{{"email", Desc{K: "pid", U: "u1"}}})
 		}, none},
